@@ -6,12 +6,13 @@ package gorm
 //@ package gorm.io/gorm
 
 //@ # ---------- C04: transaction protocol ghost state ----------
-//@ ghost begins commits rollbacks sps rbtos fccalls spname rbname fcerrtag fcerrbox opened
+//@ ghost begins commits rollbacks sps rbtos fccalls spname rbname fcerrtag fcerrbox opened commitErrTag
 
 //@ event call (*DB).Begin
 //@   do begins = begins + 1
 //@ event call (*DB).Commit
 //@   do commits = commits + 1
+//@   do commitErrTag = tagof(result.Error)
 //@ event call (*DB).Rollback
 //@   do rollbacks = rollbacks + 1
 //@ event call (*DB).SavePoint
@@ -38,6 +39,7 @@ package gorm
 //@   ensures nested-disabled: sps == old(sps) ==> rbtos == old(rbtos)
 //@   ensures nested-outer-untouched: begins == old(begins) ==> commits == old(commits) && rollbacks == old(rollbacks)
 //@   ensures begin-failed: begins == old(begins) + 1 && fccalls == old(fccalls) ==> result != nil && commits == old(commits)
+//@   ensures commit-failure-reported: begins == old(begins) + 1 && fccalls == old(fccalls) + 1 && commits == old(commits) + 1 && commitErrTag != 0 ==> result != nil [C04,C05]
 //@   ensures finishes-what-it-begins: begins == old(begins) + 1 && opened == old(opened) + 1 ==> commits + rollbacks >= old(commits) + old(rollbacks) + 1
 //@   ensures nothing-to-finish-when-begin-failed: begins == old(begins) + 1 && opened == old(opened) ==> commits == old(commits) && rollbacks == old(rollbacks)
 //@   ensures-on-panic outer: begins == old(begins) + 1 ==> rollbacks == old(rollbacks) + 1 && commits == old(commits)
@@ -559,6 +561,19 @@ package gorm
 //@   min-sites 2
 //@   entry limitedTo1 == 0 && orderedByPK == 0
 //@   assert one-row-in-primary-key-order: orderedByPK != 0 && ref(arg0) == orderedByPK [C16]
+//@ # Attrs apply only when nothing was found, Assign always, and each list is handed over on its own (a key/value list
+//@ # is read as a whole: mixing two lists changes what the keys mean); conditions first, then Attrs, then Assign.
+//@ site first-or-init-applies-one-list-at-a-time
+//@   match call gorm.(*DB).assignInterfacesToValue
+//@   in gorm.(*DB).FirstOrInit
+//@   min-sites 3
+//@   assert conditions-attrs-or-assigns: arg1 == tx.Statement.attrs || arg1 == tx.Statement.assigns || len(arg1) == 1 [C16]
+//@   assert attrs-only-when-nothing-found: arg1 == tx.Statement.attrs && len(arg1) != 1 ==> tx.RowsAffected == 0 [C16]
+//@ site first-or-create-applies-one-list-at-a-time
+//@   match call gorm.(*DB).assignInterfacesToValue
+//@   in gorm.(*DB).FirstOrCreate
+//@   min-sites 3
+//@   assert conditions-attrs-or-assigns: arg1 == db.Statement.attrs || arg1 == db.Statement.assigns || len(arg1) == 1 [C16]
 //@ func (*DB).FirstOrCreate
 //@   tags C16
 //@   assumes handle-well-formed: db.clone > 0 || (db.Statement != nil && db.Statement.DB == db)
